@@ -128,6 +128,58 @@ def str_list(node):
     return out
 
 
+_OPERATOR_FUNCS = {
+    "add": ast.Add, "sub": ast.Sub, "mul": ast.Mult, "truediv": ast.Div, "floordiv": ast.FloorDiv, "mod": ast.Mod, "lshift": ast.LShift, "rshift": ast.RShift,
+    "and_": ast.BitAnd, "or_": ast.BitOr, "xor": ast.BitXor, "pow": ast.Pow,
+    "eq": ast.Eq, "ne": ast.NotEq, "lt": ast.Lt, "le": ast.LtE, "gt": ast.Gt, "ge": ast.GtE,
+    "not_": ast.Not, "neg": ast.USub, "pos": ast.UAdd, "inv": ast.Invert, "invert": ast.Invert,
+}
+
+
+def _dispatch_arms(fn, var):
+    """the same decision written as a table: `T = {"k": operator.add, "j": lambda a, b: a and b, ...}` and
+    `return T[var](x, y)`  ->  [(k, the expression the entry computes for (x, y), stmt)]; None when the function is
+    not written that way"""
+    import copy
+
+    tables = {}
+    for st in ast.walk(fn):
+        if isinstance(st, ast.Assign) and len(st.targets) == 1 and isinstance(st.targets[0], ast.Name) and isinstance(st.value, ast.Dict) and st.value.keys and all(isinstance(k, ast.Constant) and isinstance(k.value, str) for k in st.value.keys):
+            tables[st.targets[0].id] = st.value
+    for st in ast.walk(fn):
+        if not (isinstance(st, ast.Return) and isinstance(st.value, ast.Call) and isinstance(st.value.func, ast.Subscript)):
+            continue
+        sub = st.value.func
+        if not (isinstance(sub.value, ast.Name) and sub.value.id in tables and u(sub.slice) == var and not st.value.keywords):
+            continue
+        args = st.value.args
+        arms = []
+        for k, v in zip(tables[sub.value.id].keys, tables[sub.value.id].values):
+            e = None
+            if isinstance(v, ast.Attribute) and isinstance(v.value, ast.Name) and v.value.id in ("operator", "op", "_operator") and v.attr in _OPERATOR_FUNCS:
+                o = _OPERATOR_FUNCS[v.attr]
+                if issubclass(o, ast.cmpop) and len(args) == 2:
+                    e = ast.Compare(left=args[0], ops=[o()], comparators=[args[1]])
+                elif issubclass(o, ast.unaryop) and len(args) == 1:
+                    e = ast.UnaryOp(op=o(), operand=args[0])
+                elif issubclass(o, ast.operator) and len(args) == 2:
+                    e = ast.BinOp(left=args[0], op=o(), right=args[1])
+            elif isinstance(v, ast.Lambda) and len(v.args.args) == len(args) and not v.args.defaults:
+                names = {a.arg: x for a, x in zip(v.args.args, args)}
+
+                class _S(ast.NodeTransformer):
+                    def visit_Name(self, n):
+                        return copy.deepcopy(names[n.id]) if n.id in names else n
+
+                e = _S().visit(copy.deepcopy(v.body))
+            if e is None:
+                raise AnalysisError(f"{fn.name}: table entry {k.value!r} -> `{u(v)}` not understood")
+            ast.fix_missing_locations(ast.copy_location(e, v))
+            arms.append((k.value, e, v))
+        return arms
+    return None
+
+
 def if_chain_arms(fn: ast.FunctionDef, var: str):
     """`if var == "k": return e  elif ...` -> [(k, return-expr ast, stmt)]; the
     final else (if any) is returned under key None."""
@@ -138,6 +190,9 @@ def if_chain_arms(fn: ast.FunctionDef, var: str):
         if isinstance(st, ast.If):
             node = st
             break
+    disp = _dispatch_arms(fn, var)
+    if disp is not None:
+        return disp
     if node is None:
         raise AnalysisError(f"{fn.name}: no if-chain found")
     while True:
